@@ -737,18 +737,24 @@ def part_from_matchfile(
         ts_beat_type = tsg.denominator
         # check if time signature is in a known measure (from notes)
         if ts_bar in bar_times.keys():
-            bar_start_divs = int(divs * (bar_times[ts_bar] - offset))  # in quarters
+            bar_start_divs = int(round(divs * (bar_times[ts_bar] - offset)))  # in quarters
             bar_start_divs = max(0, bar_start_divs)
         else:
-            bar_start_divs = 0
+            # a bar without notes: use the position of the signature itself
+            bar_start_divs = max(
+                0, int(round(divs * (beats_to_quarters(ts_beat_time) - offset)))
+            )
         part.add(score.TimeSignature(ts_beats, ts_beat_type), bar_start_divs)
     # add key signatures
     for ks_beat_time, ks_bar, keys in mf.key_signatures:
         if ks_bar in bar_times.keys():
-            bar_start_divs = int(divs * (bar_times[ks_bar] - offset))  # in quarters
+            bar_start_divs = int(round(divs * (bar_times[ks_bar] - offset)))  # in quarters
             bar_start_divs = max(0, bar_start_divs)
         else:
-            bar_start_divs = 0
+            # a bar without notes: use the position of the signature itself
+            bar_start_divs = max(
+                0, int(round(divs * (beats_to_quarters(ks_beat_time) - offset)))
+            )
 
         # TODO
         # * use key estimation if there are multiple defined keys
@@ -759,15 +765,35 @@ def part_from_matchfile(
     # add_clefs(part)
 
     prev_measure = None
+    prev_name = None
+    prev_barline_in_divs = None
     for measure_counter, measure_name in enumerate(bar_times.keys()):
+        if prev_measure is not None and measure_name != prev_name + 1:
+            # bars without notes lie in between (added below by add_measures):
+            # the previous bar ends after its nominal length
+            nominal_end = prev_barline_in_divs + int(
+                round(
+                    divs
+                    * beats_map(barline_in_quarters)
+                    * 4
+                    / beat_type_map(barline_in_quarters)
+                )
+            )
+        else:
+            nominal_end = None
         barline_in_quarters = bar_times[measure_name]
         barline_in_divs = int(round(divs * (barline_in_quarters - offset)))
         if barline_in_divs < 0:
             barline_in_divs = 0
         if prev_measure is not None:
-            part.add(prev_measure, None, barline_in_divs)
+            if nominal_end is not None and nominal_end < barline_in_divs:
+                part.add(prev_measure, None, nominal_end)
+            else:
+                part.add(prev_measure, None, barline_in_divs)
         prev_measure = score.Measure(number=measure_counter + 1, name=str(measure_name))
         part.add(prev_measure, barline_in_divs)
+        prev_name = measure_name
+        prev_barline_in_divs = barline_in_divs
     last_closing_barline = barline_in_divs + int(
         round(
             divs
@@ -826,7 +852,9 @@ def make_timesig_maps(
     # beats, and time sig beat_type respectively
     ts = list(ts_orig)
     assert len(ts) > 0
-    ts.append((max_time, None, ts[-1][2]))
+    # the closing point must lie after the last change (signatures may stand
+    # in bars after the last note)
+    ts.append((max(max_time, ts[-1][0] + 1), None, ts[-1][2]))
 
     x = np.array([t for t, _, _ in ts])
     y = np.array([(x.numerator, x.denominator) for _, _, x in ts])
